@@ -1,6 +1,102 @@
 """Property -> rules map.  `quick` rules run in both tiers; `thorough` adds the rest."""
 
 PROPS = {
+    "C11": {
+        "quick": ["R-PERM", "R-HERM-GUARD", "R-NORM-VIEW"],
+        "thorough": ["R-ADJ-TRANS", "R-NULL-SEED"],
+        "technique": "static index-agreement, guard-dominance and view-provenance rules on EigenSolve",
+        "claim": "Decides structural clauses of C11: eigenvalues and eigenvector columns are permuted by the same index, "
+                 "which is the sorting function's result on (values, vectors); eigh/eigsh are reached only under the "
+                 "Hermitian flag and eig/eigs only under its negation; the normalisation loop covers all modes and "
+                 "scales through a column view of the returned matrix. Residuals, normalisation values and closeness to "
+                 "the shift (numeric) are not decided; the value latch of the Hermitian flag is a known finding under C03.",
+        "explanation": "AST/CFG rules over EigenSolve._response and _sparse_eigs.",
+    },
+    "C20": {
+        "quick": ["R-FMT-AGREE", "R-SECTION-AGREE", "R-LOG-LOCKSTEP"],
+        "thorough": ["R-TAG-BALANCE"],
+        "technique": "static writer-table agreement (declared format vs cast, section vs count), path counting over CFGs",
+        "claim": "Decides structural clauses of C20: every DataArray declared Float32 writes np.float32-cast data, "
+                 "header_type matches the struct code of the block-length header, byte order declaration and struct prefix "
+                 "agree; vectors classified by size %% nnodes are written in <PointData> using nnodes and those by size %% "
+                 "nel in <CellData> using nel; both extents use the same counts; 2-D padding declares 3 components; "
+                 "ScalarToFile collects header names and row values in lockstep, writes exactly one row and advances the "
+                 "counter once per call, header only on the first call; WriteToVTI names files by counter; (thorough) XML "
+                 "tags are balanced under equal guards. Byte-level round trips are not decided.",
+        "explanation": "Literal text of every file.write call is extracted (f-strings with holes), tables of declarations "
+                       "are compared with the provenance of the data written; typestate counting over the CFG of the "
+                       "log writer with the correlated guard `tags is not None`.",
+    },
+    "C07": {
+        "quick": ["R-BLOCK-T", "R-BLOCK-MATMUL", "R-UFUNC-ARITY", "R-DIAG-DEP", "R-EFF-RESP", "R-UPDATE-BEFORE-SOLVE"],
+        "thorough": [],
+        "technique": "static block-provenance rules, operand dependence slices, effect analysis, update-before-solve dominance",
+        "claim": "Decides structural clauses of C07 for the linear-system modules: blocks obtained by indexing the input "
+                 "matrix are never used transposed in the forward path (no hidden symmetry assumption) and are combined "
+                 "with vectors through the matrix product (dense and sparse); the decoupled-dof shortcut of the default "
+                 "solver wrapper tests rows and columns; the modules never overwrite their input matrix; the inner "
+                 "solver is always updated with the current (sub)matrix before it solves. The defining equations "
+                 "themselves (numeric) are not decided.",
+        "explanation": "Blocks are recognised by provenance (double subscript of a _response parameter); rules inspect "
+                       "every use of a block in the response and sensitivity of SystemOfEquations / StaticCondensation.",
+    },
+    "C08": {
+        "quick": ["R-BC-BOTH"],
+        "thorough": ["R-PARALLEL", "R-GAUSS-SIB"],
+        "technique": "static operand-dependence slice and sibling agreement of the element-integration loops",
+        "claim": "Decides structural clauses of C08: the boundary-condition selector depends on membership of the entry's "
+                 "row AND column index in the constrained set; (thorough) values, rows and columns handed to the sparse "
+                 "constructor share one selector and are extended by constraint-length blocks with equal row/column "
+                 "tails; the five element-integration loops use the same sampling points and weight, and the 2-D "
+                 "thickness scaling is applied consistently. Entry values, symmetry, definiteness and null spaces "
+                 "(numeric) are not decided.",
+        "explanation": "Dependence slice through operand positions from the selector attribute to np.isin tests; "
+                       "normalised-expression comparison across sibling loops.",
+    },
+    "C09": {
+        "quick": ["R-KERNEL-NORM"],
+        "thorough": ["R-ROWSUM", "R-PAD-SIB", "R-CONV-PAIR", "R-FILTER-ORDER"],
+        "technique": "static must-pass-through on the kernel construction, sibling agreement of padding branches",
+        "claim": "Decides structural clauses of C09: on every path the radius kernel is divided by its own sum after its "
+                 "last assignment; (thorough) the normalisation vector of Filter is a sum-reduction of the matrix the "
+                 "response multiplies with and the response divides by it; both edges of an axis support the same "
+                 "padding modes; convolution/correlation and normalisation order pair up with the adjoint. Filtered "
+                 "values, range and volume preservation (numeric) are not decided.",
+        "explanation": "CFG must-pass-through in set_filter_radius; AST pattern rules on Filter and _process_padding.",
+    },
+    "C13": {
+        "quick": ["R-RADIX", "R-NODE-TABLE"],
+        "thorough": [],
+        "technique": "static mixed-radix (Horner) form comparison of encoder and decoder; literal table check",
+        "claim": "Decides structural clauses of C13: the node/element number encoders are Horner forms over the Cartesian "
+                 "indices in x-fastest order whose radices equal, in the same significance order, those of the node-index "
+                 "decoder, and nel/nnodes are the products of those radices; literal entry k of the local node table "
+                 "has the sign pattern of the bits of k under the right dimension guard. Shape-function identities "
+                 "(polynomial identities) are not decided.",
+        "explanation": "Horner decomposition of the return expressions of get_nodenumber/get_elemnumber against the "
+                       "%% and // chain of get_node_indices; literal check of node_numbering.",
+    },
+    "C14": {
+        "quick": ["R-KIND", "R-DIR-VALID"],
+        "thorough": ["R-CLONE-OVERHANG"],
+        "technique": "static reaching-definitions kind lint, must-pass-through of validation, clone comparison of sweep set-up",
+        "claim": "Decides structural clauses of C14: no string test is evaluated on a name that can only hold the parsed "
+                 "numeric direction (sign of string directions is not lost); every path of the set-up normalises the "
+                 "direction, asserts axis alignment, asserts z=0 for 2-D and validates the number of support points; "
+                 "(thorough) response and sensitivity sweeps use identical stencils and opposite traversal. Smooth min/max "
+                 "values and the overshoot bound (numeric) are not decided.",
+        "explanation": "Reaching definitions per use site over the CFG; must-pass-through in OverhangFilter._prepare.",
+    },
+    "C16": {
+        "quick": ["R-NEGSLICE"],
+        "thorough": ["R-BAND"],
+        "technique": "static range lint on negative slice bounds with guard dominance",
+        "claim": "Decides the structural clause 'a fraction that rounds to zero entries removes nothing': every slice bound "
+                 "-n with a computed count n is dominated by a test implying n >= 1 (package-wide); (thorough) the value "
+                 "band uses closed comparisons on one normalised array. Bounds of the aggregation functions and the "
+                 "damping recurrence (numeric) are not decided.",
+        "explanation": "Package-wide scan of slice bounds; dominance of n>0-implying tests with no reassignment in between.",
+    },
     "C10": {
         "quick": ["R-PROTOCOL", "R-BOUNDS", "R-ARGNAMES", "R-CUMSLICE", "R-WRITEBACK"],
         "thorough": ["R-MMA-MEM", "R-STEP-DEP"],
@@ -31,15 +127,17 @@ PROPS = {
                        "expansion, and a sign/monotonicity lattice through /, sqrt, *, clip, sum for the bisection.",
     },
     "C12": {
-        "quick": ["R-TRANSPOSE-PAIR", "R-EINSUM-VJP", "R-SCATTER"],
-        "thorough": [],
+        "quick": ["R-TRANSPOSE-PAIR", "R-EINSUM-VJP", "R-SCATTER", "R-CONSTIT"],
+        "thorough": ["R-GAUSS-SIB"],
         "technique": "static einsum subscript algebra and gather/scatter role comparison of sibling operators",
         "claim": "Decides the structural clause 'NodalOperation is the transpose of ElementOperation': the response "
                  "contraction of each is the sensitivity contraction of the other (same subscripts up to letter "
                  "renaming, same roles of element matrix and data), the gather/scatter index attributes swap roles, "
                  "scatters through the connectivity accumulate, and each class's own sensitivity contraction is the VJP "
                  "of its response. Exactness on affine fields, centroid values, and the Strain/Stress shear scaling are "
-                 "numeric and not decided here (R-CONSTIT in the thorough tier of DESIGN.md is recorded separately).",
+                 "numeric; the structural part 'the operator multiplied with the constitutive matrix is get_B combined only "
+                 "linearly' is decided by R-CONSTIT, whose single report (Strain's doubled engineering shear feeding "
+                 "Stress) is a known finding pinned by an existing test.",
         "explanation": "Literal einsum specifications are parsed, canonicalised modulo bijective renaming with the data "
                        "operand in a fixed position, and compared across ElementOperation/NodalOperation.",
     },
